@@ -44,6 +44,10 @@ func replayViolation(prop string, v sym.Violation) (string, bool, string) {
 		return dir, true, note
 	default:
 		ok, out := nativeReplay(v.Harness, v.Label, filepath.Join(dir, "model.json"))
+		for try := 0; !ok && v.Permuted && try < 60; try++ {
+			// the failure depends on Go's random map iteration order: repeat the native run
+			ok, out = nativeReplay(v.Harness, v.Label, filepath.Join(dir, "model.json"))
+		}
 		os.WriteFile(filepath.Join(dir, "observed.txt"), []byte(out), 0644)
 		os.WriteFile(filepath.Join(dir, "cmd.sh"), []byte(fmt.Sprintf("#!/bin/sh\n/verif/check %s --replay %s\n", prop, dir)), 0755)
 		if ok {
@@ -161,6 +165,9 @@ func nativeReplay(harness, label, modelPath string) (bool, string) {
 	s0 := runNative(harness, modelPath)
 	out := []byte(s0)
 	s := string(out)
+	if strings.HasPrefix(label, "cross-path:") {
+		return strings.Contains(s, "VRT-ASSERT-FAILED cross-path"), s
+	}
 	if label == "no-panic" {
 		return strings.Contains(s, "VRT-PANIC"), s
 	}
